@@ -93,7 +93,7 @@ def classify(violations, known, pid):
 
 
 def write_replay(pid, seed, v, idx):
-    d = os.path.join(core.VERIF, 'replays')
+    d = os.environ.get('QSMON_REPLAY_DIR') or os.path.join(core.VERIF, 'replays')
     os.makedirs(d, exist_ok=True)
     path = os.path.join(d, '%s-seed%s-%s-%d.json' % (pid, seed, v['key'].replace('/', '_'), idx))
     core.dump(path, {'property': pid, 'seed': seed, 'key': v['key'], 'msg': v['msg'],
@@ -188,8 +188,9 @@ def check_main(pid, tier):
         'verdict': {0: 'held on what was observed', 1: 'violated', 2: 'inconclusive'}[status],
         'tree': core.REPO,
     }
-    os.makedirs(os.path.join(core.VERIF, 'evidence'), exist_ok=True)
-    core.dump(os.path.join(core.VERIF, 'evidence', '%s.json' % pid), ev)
+    evdir = os.environ.get('QSMON_EVIDENCE_DIR') or os.path.join(core.VERIF, 'evidence')
+    os.makedirs(evdir, exist_ok=True)
+    core.dump(os.path.join(evdir, '%s.json' % pid), ev)
 
     for ln in lines:
         print(ln)
